@@ -851,6 +851,10 @@ class BitsVar(Spec):
     def unit(self):
         return "0"
 
+    def modes(self):
+        # the free length first, then one mode per length the codecs use (a defect tied to one particular length is a mode)
+        return [self] + [Bits(L) for L in (8, 16, 32, 64, 72, 80, 96, 128, 144, 196) if self.lo <= L <= self.hi]
+
 
 def _mutate_hex(h: str, kind: str, pos: int, val: int) -> str:
     b = bytearray(bytes.fromhex(h))
